@@ -45,8 +45,60 @@ def load_specs():
     return loaded
 
 
+def _limit_memory():
+    """a runaway solver query must end as `unknown`, not as an OOM kill of the whole check"""
+    try:
+        import resource
+        cap = int(os.environ.get('PYVC_MEM_GB', '24')) << 30
+        resource.setrlimit(resource.RLIMIT_AS, (cap, cap))
+    except Exception:      # noqa
+        pass
+    try:
+        import z3
+        z3.set_param('memory_max_size', int(os.environ.get('PYVC_Z3_MEM_MB', '8000')))
+    except Exception:      # noqa
+        pass
+
+
+def robust_map(fn, arglist, jobs, star=False):
+    """pool.map that survives the death of a worker (OOM kill, solver crash): tasks of a broken pool are re-run one
+    per process; a task whose own process dies yields {'status': 'error', 'reason': 'worker died'}"""
+    from concurrent.futures import ProcessPoolExecutor
+    from concurrent.futures.process import BrokenProcessPool
+    ctx = multiprocessing.get_context('fork')
+    call = (lambda a: fn(*a)) if star else fn
+    results = [None] * len(arglist)
+    todo = list(range(len(arglist)))
+    try:
+        with ProcessPoolExecutor(max_workers=max(1, min(jobs, len(arglist))), mp_context=ctx) as ex:
+            futs = {i: (ex.submit(fn, *arglist[i]) if star else ex.submit(fn, arglist[i])) for i in todo}
+            for i, f in futs.items():
+                try:
+                    results[i] = f.result()
+                except BrokenProcessPool:
+                    raise
+                except Exception as e:      # noqa
+                    results[i] = {'status': 'error', 'reason': 'task raised %s: %s' % (type(e).__name__, e)}
+        return results
+    except BrokenProcessPool:
+        pass
+    for i in todo:
+        if results[i] is not None:
+            continue
+        try:
+            with ProcessPoolExecutor(max_workers=1, mp_context=ctx) as ex:
+                f = ex.submit(fn, *arglist[i]) if star else ex.submit(fn, arglist[i])
+                results[i] = f.result()
+        except BrokenProcessPool:
+            results[i] = {'status': 'error', 'reason': 'worker died (killed or crashed) while running %r' % (arglist[i],)}
+        except Exception as e:      # noqa
+            results[i] = {'status': 'error', 'reason': 'task raised %s: %s' % (type(e).__name__, e)}
+    return results
+
+
 def _task(args):
     kind, key, inst_name, timeout_ms, want_smt = args
+    _limit_memory()
     from pyvc import driver as D
     load_specs()
     try:
@@ -174,8 +226,11 @@ def run_check(prop, tier, seed, a, t0):
     tasks = select(prop)
     results = []
     if tasks:
-        with multiprocessing.get_context('fork').Pool(min(a.jobs, max(1, len(tasks)))) as pool:
-            results = pool.map(_task, [(k, key, inst, timeout_ms, False) for (k, key, inst) in tasks], chunksize=1)
+        results = robust_map(_task, [(k, key, inst, timeout_ms, False) for (k, key, inst) in tasks], a.jobs)
+        for (k, key, inst), r in zip(tasks, results):
+            if 'key' not in r:          # the worker died: a complete record with status error
+                r.update({'kind': k, 'key': key, 'instance': inst, 'status': 'error', 'obligations': [], 'sha': '', 'path': '',
+                          'line': 0, 'assumptions': [], 'time_s': 0, 'cover': None, 'canary': None, 'infeasible_paths': 0})
     baseline = load_baseline()
     known = load_known()
     violations = []      # (obligation name, replay path, suffix)
@@ -276,8 +331,7 @@ def run_check(prop, tier, seed, a, t0):
             args += ['--instance', inst]
         native_jobs.append((key, inst, args))
     if native_jobs:
-        with multiprocessing.get_context('fork').Pool(min(a.jobs, len(native_jobs))) as pool:
-            outs = pool.map(run_native, [j[2] for j in native_jobs], chunksize=1)
+        outs = robust_map(run_native, [j[2] for j in native_jobs], a.jobs)
         for (key, inst, _), out in zip(native_jobs, outs):
             label = key + (('[%s]' % inst) if inst else '')
             bounded['contracts'].append({'function': label, 'status': out.get('status'),
@@ -305,8 +359,7 @@ def run_check(prop, tier, seed, a, t0):
     if drivers:
         jobs = [['-m', mod] + list(args) + ['--tier', tier, '--seed', str(seed), '--out', replay_dir] for mod, args in drivers]
         tmo = info.get('driver_timeout', {}).get(tier, 1500 if tier == 'quick' else 7200)
-        with multiprocessing.get_context('fork').Pool(min(a.jobs, len(jobs))) as pool:
-            outs = pool.starmap(run_native, [(j, tmo) for j in jobs], chunksize=1)
+        outs = robust_map(run_native, [(j, tmo) for j in jobs], a.jobs, star=True)
         scenario = {'evaluations': 0, 'distinct_nontrivial': 0, 'samples': [], 'drivers': []}
         for (mod, args), out in zip(drivers, outs):
             scenario['drivers'].append({'driver': mod + ' ' + ' '.join(args), 'status': out.get('status'),
